@@ -15,6 +15,9 @@
 #include <pthread.h>
 #include <atomic>
 #include <thread>
+#include <cerrno>
+#include <ctime>
+#include <unistd.h>
 
 extern "C" {
 extern void (*rtosc_verif_hook)(int id, const void *ring);
@@ -44,6 +47,19 @@ static int ops_done[2];
 static const void *the_ring = 0;
 
 static void hook_capture(int, const void *ring) { the_ring = ring; }
+// a thread that does not come back to a hook (or finish) within 20 s is stuck
+static void wait_arrived(int t)
+{
+    struct timespec ts;
+    clock_gettime(CLOCK_REALTIME, &ts);
+    ts.tv_sec += 20;
+    while(sem_timedwait(&arrived_[t], &ts) != 0) {
+        if(errno == EINTR) continue;
+        printf("HANG thread %d does not reach its next shared access\n", t);
+        fflush(stdout);
+        _exit(3);
+    }
+}
 static void hook_sched(int id, const void *)
 {
     if(my_tid < 0) return;
@@ -138,8 +154,8 @@ static std::string run_ring(const std::vector<std::string> &f)
         fin_[t] = false; ops_done[t] = 0; at_id[t] = 0;
     }
     std::thread tw(writer_main, &R), tr(reader_main, &R);
-    sem_wait(&arrived_[0]);
-    sem_wait(&arrived_[1]);
+    wait_arrived(0);
+    wait_arrived(1);
     std::string ev;
     auto hookstep = [&](int t) {
         if(fin_[t]) return;
@@ -148,7 +164,7 @@ static std::string run_ring(const std::vector<std::string> &f)
         snprintf(b, sizeof b, "%c%d:%ld,%ld,%ld,%08x;", t ? 'R' : 'W', at_id[t], q.w, q.r, q.rl, fnv(q.buf, q.size));
         ev += b;
         sem_post(&go_[t]);
-        sem_wait(&arrived_[t]);
+        wait_arrived(t);
     };
     auto whole = [&](int t) {
         int before = ops_done[t];
@@ -195,12 +211,14 @@ static std::string run_soak(const std::vector<std::string> &f)
     long reads = 0, bad = 0, last = -1;
     std::thread tr([&] {
         int idle = 0;
+        long spins = 0, stuck = 0;
         while(true) {
+            if(++spins > 400 * count + 4000000 || stuck > 1000) { bad++; break; }   // never ends: broken
             if(tl.hasNext()) {
                 idle = 0;
                 const char *m = tl.read();
                 size_t len = rtosc_message_length(m, MM);
-                if(len == 0 || strcmp(rtosc_argument_string(m), "ii")) { bad++; continue; }
+                if(len == 0 || strcmp(rtosc_argument_string(m), "ii")) { bad++; stuck++; continue; }
                 long seq = rtosc_argument(m, 0).i, chk = rtosc_argument(m, 1).i;
                 size_t pl = strlen(m);
                 bool ok = seq > last && chk == (int)((seq * 2654435761u ^ pl) & 0x7fffffff) && m[0] == '/' && m[1] == 'm';
